@@ -13,7 +13,7 @@ if os.path.realpath(REPO) != "/repo":
     COQ = os.path.join(ALT, "coq")
     os.makedirs(COQ, exist_ok=True)
     os.environ["VERIF_COQ"] = COQ
-    subprocess.run(["rsync", "-a", "--delete", "--exclude", "run/", "--exclude", "gen/Extracted.v", "--exclude", "gen/Extracted.vo",
+    subprocess.run(["rsync", "-a", "--delete", "--exclude", "run/", "--exclude", "gen/*.v", "--exclude", "gen/*.vo",
                     "--exclude", "Makefile*", "--exclude", ".Makefile.d", "--exclude", "_CoqProject",
                     os.path.join(VERIF, "coq") + "/", COQ + "/"], check=False)
 sys.path.insert(0, os.path.join(VERIF, "gen"))
